@@ -1,6 +1,8 @@
 """C05 — concurrent batches are linearizable; readers see a prefix of that order."""
 
-GEN = False
+GEN = True              # go/extract/c05.go regenerates lean/BlugeGen/C05.lean (protocol facts of prepareSegment / introducerLoop /
+                        # replaceRoot / currentSnapshot / the persister's grab and ack loop; callers of introduce*; writes to .root)
+EXTRACT_DEPS = ("c01.go",)   # c05.go uses the statement walker and the prepareSegment facts of c01.go
 STATELESS = False      # one case = one concurrent run (case / w… / r… / go / end); shrunk by dropping writers and readers
 # model branches (reported by the Lean driver on the REAL recorded history) and harness counters that a run must reach
 REQUIRED_BRANCHES = [
@@ -40,6 +42,8 @@ TRUSTED = [
     "recorded history is replayed as a model execution whose every event must be enabled",
     "the specification Bluge.Lin.Accepts of an explained history and its decision procedure explains/judge (sound by theorem; "
     "every model history is accepted by theorem)",
+    "the fact extractor go/extract/c05.go + c01.go (go/parser + go/ast; refuses statement kinds it does not render); the regenerated "
+    "tables BlugeGen.C05 are obliged to equal BlugeProofs/C05/Facts.lean (gen_protocol_matches_model, gen_statements_match_model)",
     "the correspondence harness go/harness/c05, its logical clock, trace hook index.SetVerifTrace and segment-plugin wrapper (build tag verif)",
 ]
 EXEC_TIMEOUT = {"quick": 900, "thorough": 7200}
@@ -61,7 +65,9 @@ LEVEL_TEXT = ("Lean 4 theorems about the concurrent client model Bluge.Lin (any 
               "reader is the abstract index after a prefix of that order, prefixes grow with time and contain every call that returned "
               "before the reader was obtained, the installed root does not depend on which stale root prepareSegment saw; the history any "
               "model execution records satisfies the executable specification Accepts, and the checker explains/judge that the driver "
-              "runs on the histories recorded from the real writer is sound. The model is tied to /repo by the stream `lin`: seeded "
+              "runs on the histories recorded from the real writer is sound. The model is tied to /repo by the regenerated protocol facts "
+              "BlugeGen.C05 (program order of prepareSegment, the introducer as only caller of introduce* and only writer of the root, "
+              "lock regions of replaceRoot / currentSnapshot / the persister's grab) and by the stream `lin`: seeded "
               "concurrent runs (2-8 writers, 1-3 readers, 2-4 shared ids, gate in prepareSegment) on the real index.Writer over "
               "{mem,fs}x{safe,unsafe}x{ice v1, v2}, each recorded history decided by the Lean checker and replayed as a model execution")
 LEVEL_NOTE = ("trusted: Lean kernel + propext/Classical.choice/Quot.sound; the hand-written models Bluge.Index/Bluge.Lin; the harness, its "
